@@ -7,6 +7,10 @@ From FF Require Import Model.Tensor Spec.Kron Proofs.TensorIdx Proofs.TensorOrde
   Proofs.TensorKron Proofs.TensorRegroup Proofs.TensorInsert.
 Import ListNotations.
 
+Section Generic.
+Context {T : Type} {EN : Entry T} {EL : EntryLaws T}.
+Local Notation arr := (garr T).
+
 (* ------------------------------------------------------------------ subscripts in block form *)
 Lemma flat_map_map2 {A B C} (f : A -> B -> list C) (g : A -> B) l :
   flat_map (fun a => f a (g a)) l = concat (map2 f l (map g l)).
@@ -296,3 +300,4 @@ Proof.
   apply ravel_concat.
   clear -HV. induction HV; constructor; auto. eapply inb_length; eauto.
 Qed.
+End Generic.
